@@ -663,3 +663,5 @@ func signatureOf(c *ssa.CallCommon) *types.Signature {
 type typesStruct = types.Struct
 
 type ssaGlobal = ssa.Global
+
+type typesSlice = types.Slice
